@@ -94,6 +94,9 @@ func (prop) Run(t *testing.T, tape *kernel.Tape, sc kernel.Scenario) *kernel.Res
 	names := []string{"a", "b", "id", "ab"}
 	if tape.Bool(3, "placeholder-names-that-are-not-identifiers") {
 		names = []string{"org-id", "repo.name", "id", "a_b"}
+	} else if tape.Bool(4, "placeholder-names-that-differ-only-in-case") {
+		// {id} and {ID} are two parameters: names are matched as written
+		names = []string{"id", "ID", "Id", "a"}
 	}
 	nph := tape.Choose(5, "nplaceholders")
 	var patSegs []string
